@@ -1,8 +1,12 @@
 Require Import ExtrOcamlBasic.
 From Eupsv Require Import Base.Base Model.PathAlg Model.Setup Model.SetupWf Model.Resolve Model.SetupFull Generated.Config
-  Model.SetupText Model.ResolveReal.
+  Model.SetupText Model.ResolveReal Model.SetupMS Model.SetupMSWf Model.SetupMSFull Model.SetupMSText
+  Model.SetupCmds.
 Extraction "model.ml" keep_types setup request find_setup_product setup_string
   wf2_check wf2_fields dl_of rank_of
   request_full_simple setup_full_simple select_vro entry_str site_config default_config
   world_of_text product_of_text setup_text request_text
-  request_full_real request_full_real_checked full_domain fw_real_ok fw_conv db_sorted db_of.
+  request_full_real request_full_real_checked full_domain fw_real_ok fw_conv db_sorted db_of
+  msetup mrequest mfind_setup_product ms_setup_string mwf2_check mwf2_fields
+  mrequest_full_simple msetup_full_simple mdb_of mworld_of_text mproduct_of_text msetup_text
+  shell_after cmds_in_claim command_texts.
